@@ -65,7 +65,7 @@ def bounds(tier):
         "dims_d2": _dims(2),
         "dims_d3": _dims(3),
         "deviation_bound": {"quick": {"d2": 2, "d3": 2}, "thorough": {"d2": 4, "d3": 3}}[tier],
-        "extra_full_products": "thorough: full product of (fext, pad, torus, stride, rhs, lhs) at kk in {(1,1),(0,0),(2,1)} d=2, both extents" if tier == "thorough" else "none",
+        "extra_full_products": "thorough: full product of (fext, pad, torus, stride, rhs, lhs) at kk in {(1,1),(0,0)} d=2, extents (4,4) and (3,5)" if tier == "thorough" else "none",
     }
 
 
@@ -89,8 +89,8 @@ def cases(tier, seed):
     if tier == "thorough":
         dims = _dims(2)
         sub = {k: dims[k] for k in ("fext", "pad", "torus", "stride", "rhs", "lhs")}
-        for ext in dims["ext"]:
-            for kk in ([1, 1], [0, 0], [2, 1]):
+        for ext in dims["ext"][:2]:
+            for kk in ([1, 1], [0, 0]):
                 for cell in explore.product(sub):
                     out.append(dict(cell, d=2, ext=ext, batch=1, chans=[1, 1], kk=kk, dev=-1))
     out = explore.dedupe(out, lambda c: repr({k: v for k, v in c.items() if k != "dev"}))
